@@ -294,7 +294,7 @@ func (w *World) setPodStatus(p *podState, phase corev1.PodPhase, v4, v6 string) 
 		}
 		pod.Status.PodIPs = append(pod.Status.PodIPs, corev1.PodIP{IP: ip})
 	}
-	_ = w.api.Inner.Update(context.Background(), pod)
+	_ = w.api.Inner.Status().Update(context.Background(), pod)
 	p.v4, p.v6 = v4, v6
 }
 
